@@ -151,6 +151,17 @@ class C20(MemSpec):
                         'stored in it (both would be a leak / resurrection the guard cannot see)',
                         'objects are used at their C type']
 
+    def more_variants(self, cases, tier, seed):
+        # every second case with a stray copy once more with the objects a multiple of 4 GiB apart (header farslots 1)
+        out, n = [], 0
+        for c in cases:
+            if any(h.split()[0] == 'farslots' for h in c.header) or not any(o.split()[0] == 'straycopy' for o in c.ops):
+                continue
+            n += 1
+            if n % 2 == 0:
+                out.append(Case(c.name + 'f', c.header + ['farslots 1'], c.ops, c.origin))
+        return out
+
     def oracle_only(self, c):
         # a unique pointer swapped with itself is outside the model's domain (cstl_swap would copy a member onto itself);
         # through a stray copy the guarded read comes first and must abort: judged by the reference oracle alone
